@@ -2,9 +2,9 @@
 
 # model .vo files the extraction depends on (relative to coq/)
 MODEL_VO = ['gen/Consts.vo', 'gen/CrcTables.vo', 'model/Bytes.vo', 'model/Codec.vo', 'model/Order.vo', 'model/Crc.vo',
-            'model/Block.vo', 'model/Writer.vo', 'model/WriteLoop.vo', 'spec/Leb128.vo', 'spec/Parse.vo', 'model/Reader.vo', 'model/Verify.vo', 'model/Compress.vo', 'model/Heap.vo', 'model/Merger.vo', 'model/Sorter.vo', 'model/Fileset.vo']
+            'model/Block.vo', 'model/Writer.vo', 'model/WriteLoop.vo', 'spec/Leb128.vo', 'spec/Parse.vo', 'model/Reader.vo', 'model/Verify.vo', 'model/Compress.vo', 'model/Heap.vo', 'model/Merger.vo', 'model/Sorter.vo', 'model/Fileset.vo', 'model/Ledger.vo']
 # OCaml modules of the driver, in link order
-OCAML_MODULES = ['common', 'gen', 'enc', 'c16', 'wr', 'c20', 'rd', 'c19', 'c17', 'c12', 'c15', 'mg', 'so', 'fs', 'main']
+OCAML_MODULES = ['common', 'gen', 'enc', 'c16', 'wr', 'c20', 'rd', 'c19', 'c17', 'c12', 'c15', 'mg', 'so', 'fs', 'lk', 'main']
 C_VARIANTS_SETUP = ('all',)
 EXTRA_BUILDS = []
 COQ_TIMEOUT = 3000
@@ -133,6 +133,15 @@ PROPS = {
         'trusted_base': ['crc32{b,w,l,q} instruction semantics (Intel SDM): byte-wise accumulation of a little-endian operand', 'the little-endian branch of crc32c-slicing.c is the one compiled (config.h: WORDS_BIGENDIAN undefined)'],
         'assumptions': ['bytes < 256', 'the one-time dispatch (constructor / my_crc32c_first) is outside the model: both implementations and the dispatcher are called directly by the driver'],
         'explanation': 'T17a/T17b: the slicing-by-8 model (8x256 tables and lookup pattern scraped from the source, checked by finite computation and GF(2)-linearity of the shift register) and the SSE4.2 model (tail switch scraped from the source; shown to read every tail byte once, in order) equal the bit-serial CRC-32C for every byte string and alignment; T17c pins the standard by the check value and the RFC 3720 vectors.',
+    },
+    'C18': {
+        'engines': [{'name': 'lk', 'timeout_quick': 600, 'timeout_thorough': 7200}],
+        'trusted_base': ['/proc/self/fd, /proc/self/maps, /proc/self/task, mallinfo2 (glibc tcache disabled through GLIBC_TUNABLES so that in-use bytes are exact)', 'MTBL_VERIF hook (small sorter chunks), mkstemp/clock shims'],
+        'assumptions': ['well-formed usage: no call on a destroyed object; borrowers are destroyed before what they borrow (iterators before their source, mergers before the sources added, writers and sorters before their pool)',
+                        'heap: a scenario that destroys all its objects is repeated four times in one process; a leak is reported when the in-use bytes grow in both of the last two repetitions (constant one-time allocations of libc/OCaml are thereby ignored)',
+                        'the ledger theorem (T18a) is true by construction of the model; the footprints it assigns are what the correspondence run validates step by step',
+                        'a pooled sorter whose merge callback failed makes mtbl_sorter_iter assert (observation O3); such histories are not generated'],
+        'explanation': 'Ledger model: footprint of every object kind in descriptors / file mappings / temp files / handler threads; T18a: every created object destroyed => ledger empty. Engine lk: scenarios over writers, readers, iterators abandoned undrained, mergers, sorters (destroyed before/after iteration, with jobs in flight, after failing merge, after a refused sorter_write), filesets with dups and reloads, shared pools; observed vs ledger after every step, all-zero at the end, no heap growth over repetitions.',
     },
     'C19': {
         'engines': [{'name': 'c19', 'timeout_quick': 600, 'timeout_thorough': 7200}],
